@@ -62,6 +62,15 @@ def one(e, base):
     elif e.get('generator') == 'demorgan':
         from demorgan import main as demorgan
         demorgan(d)
+    elif e.get('generator') == 'py-c-keywords':
+        from py_c_keywords import main as ckw
+        ckw(d)
+    elif e.get('generator') == 'drop-const':
+        from drop_const import main as dropc
+        dropc(d)
+    elif e.get('generator') == 'swap-guards':
+        from swap_guards import main as swapg
+        swapg(d)
     elif e.get('generator') == 'insert-noops':
         from insert_noops import main as noops
         noops(d)
